@@ -643,9 +643,63 @@ class PropMap(object):
         self.stores.append((k, v))
 
 
+APPENDED = z3.Function("APPENDED", z3.IntSort(), z3.IntSort())
+
+
+class CarriedList(SlotList):
+    """a copy of the previous segment's object list: `n0` objects; element j is a generic object (free path and
+    fields, remembered per position so that its later treatment can be compared with its state at the copy)"""
+
+    def __init__(self, vc, n0, origin):
+        SlotList.__init__(self)
+        self.vc, self.n0, self.origin = vc, n0, origin
+
+    def element(self, j):
+        for (j0, o) in self.origin.elements:
+            if j0 is j:
+                return o
+        o = mk_segobj(self.vc, fresh_str(self.vc.st, sym.fresh_name("carried_path")), sym.fresh_name("carried"))
+        self.origin.elements.append((j, o))
+        self.origin.snaps[id(o)] = (view(o), snapshot(o))
+        return o
+
+    def as_symseq(self):
+        from pyvc.interp import SymSeq
+        return SymSeq(self.n0, self.element, "carried-objects")
+
+
+class AbsList(object):
+    """previous_segment.ordered_objects of any length: may only be copied whole (`[:]`)"""
+    _absent = ()
+
+    def __init__(self, vc, n):
+        self.vc, self.n = vc, n
+        self.elements = []
+        self.snaps = {}
+        self.copies = []
+
+    def __getitem__(self, k):
+        if isinstance(k, slice) and k.start is None and k.stop is None and k.step is None:
+            c = CarriedList(self.vc, self.n, self)
+            self.copies.append(c)
+            return c
+        raise sym.Unsupported("access to the previous segment's object list other than a whole copy")
+
+    def as_symseq(self):
+        return CarriedList(self.vc, self.n, self).as_symseq()
+
+    def __setitem__(self, k, v):
+        raise ProgExc(AssertionError, "the previous segment's object list must not be modified")
+
+    def append(self, v):
+        raise ProgExc(AssertionError, "the previous segment's object list must not be modified")
+
+
 def _list_len(lst):
     if isinstance(lst, list):
         return len(lst)
+    if isinstance(lst, AbsList):
+        return lst.n
     return lst.n0 + len(lst.appends)
 
 
@@ -667,7 +721,12 @@ def _setup_loop(interp):
             tok = [("props-at", pos)]
         if g is not None:
             g["prop_reads"].append((pos, order, tok))
+            g["body_done"] = True
             st.assume(_lift(ENTRY(sym.z3int(g["k"] + 1))) == pos + adv)       # definition of ENTRY(k+1)
+            lst = seg.ordered_objects
+            if isinstance(lst, SlotList):                                     # definition of APPENDED(k+1)
+                st.assume(_lift(APPENDED(sym.z3int(g["k"] + 1))) ==
+                          _lift(APPENDED(sym.z3int(g["k"]))) + len(lst.appends))
         return tok
 
     interp.contracts_at_calls["nptdms.tdms_segment:TdmsSegment._read_object_properties"] = read_object_properties
@@ -708,20 +767,49 @@ def _setup_loop(interp):
         lst = seg.ordered_objects
         f = g["file"]
         props = env.vars["properties"]
-        out = [("cursor-at-the-start-of-entry-k", f.pos == _lift(ENTRY(sym.z3int(k)))),
-               ("one-object-per-listed-entry-so-far", _list_len(lst) == k),
-               ("no-slot-of-the-list-overwritten", isinstance(lst, list) or len(lst.stores) == 0),
-               ("properties-none-or-a-map", props is None or isinstance(props, (dict, PropMap)))]
+        out = [("cursor-at-the-start-of-entry-k", f.pos == _lift(ENTRY(sym.z3int(k))))]
+        if g["carried"] is None:
+            out += [("one-object-per-listed-entry-so-far", _list_len(lst) == k),
+                    ("no-slot-of-the-list-overwritten", isinstance(lst, list) or len(lst.stores) == 0)]
+        else:
+            out += [("list-is-the-carried-objects-plus-those-appended-so-far",
+                     _list_len(lst) == g["carried"] + _lift(APPENDED(sym.z3int(k)))),
+                    ("appended-so-far-within-0..k", And(_lift(APPENDED(sym.z3int(k))) >= 0,
+                                                        _lift(APPENDED(sym.z3int(k))) <= k)),
+                    ("the-list-is-a-copy-never-the-previous-segment's-own-list", lst is not g["prev_list"])]
+        out.append(("properties-none-or-a-map", props is None or isinstance(props, (dict, PropMap))))
         it = st.ghost.get("iter")
-        if it is not None and isinstance(lst, SlotList) and len(lst.appends) == 1 and not it.get("checked"):
+        if it is not None and isinstance(lst, SlotList) and not isinstance(lst, CarriedList) \
+                and it.get("body_done") and not it.get("checked"):
             it["checked"] = True
-            out.extend(_iteration_post(g, it, lst.appends[0], props, st))
+            out.extend(_iteration_post(g, it, lst, props, st, env))
         return out
 
-    def _iteration_post(g, it, got, props, st):
+    def _iteration_post(g, it, lst, props, st, env):
         interp_ = interp
         res = []
         prevmap = g["prevmap"]
+        # was the path found among the carried-over objects?  (decided by the lookup the code made)
+        existing = env.vars.get("existing_objects")
+        carried_hit = None
+        if existing is not None:
+            from pyvc.interp import SymCompDict
+            if not isinstance(existing, SymCompDict):
+                raise sym.Unsupported("existing_objects is no longer a comprehension over the carried list")
+            mine = [(x, hit, j, v) for (x, hit, j, v) in existing.lookups
+                    if interp_.truth(interp_.compare(ast.Eq, x, it["path"]))]
+            res.append(("the-carried-list-is-consulted-for-this-entry's-path", len(mine) >= 1))
+            if not mine:
+                return res
+            if mine[-1][1]:
+                carried_hit = mine[-1]
+        if carried_hit is not None:
+            return res + _carried_post(g, it, lst, props, st, carried_hit)
+        res.append(("exactly-one-object-appended-for-an-entry-not-carried-over",
+                    len(lst.appends) == 1 and len(lst.stores) == 0))
+        if len(lst.appends) != 1:
+            return res
+        got = lst.appends[0]
         path, header, after_header = it["path"], it["header"], it["after_header"]
         order = ">" if g["big"] else "<"
         full = (_lift(z3.Function("IDX_NV", z3.IntSort(), z3.IntSort())(sym.z3int(after_header))),
@@ -757,6 +845,68 @@ def _setup_loop(interp):
                         and reads[0][3] == order))
         else:
             res.append(("no-index-in-entry/no-index-read", len(reads) == 0))
+        res.extend(_props_post(g, it, props, header, after_header, order))
+        # earlier objects are not modified (the remembered object may be shared, never changed)
+        for (o, opath, ohas, onv, osize, otyp) in [prevmap.snap_of[id(kobj)]]:
+            res.append(("frame/remembered-object-unchanged", And(o.has_data == ohas, o.number_values == onv,
+                                                                 o.data_size == osize, o.data_type is otyp)))
+        return res
+
+    def _carried_post(g, it, lst, props, st, hit):
+        """entry whose path is in the carried-over list: at most one store, at the position the path has in the
+        list, of the object the specification gives when applied to the object carried at that position"""
+        interp_ = interp
+        res = []
+        (x, _, j, val) = hit
+        path, header, after_header = it["path"], it["header"], it["after_header"]
+        order = ">" if g["big"] else "<"
+        res.append(("carried/dictionary-value-is-position-and-object", isinstance(val, tuple) and len(val) == 2))
+        if not (isinstance(val, tuple) and len(val) == 2):
+            return res
+        (pos_, obj) = val
+        origin = g["prev_list"]
+        res.append(("carried/the-object-is-the-one-carried-at-that-position",
+                    any(o is obj and interp_.truth(j0 == pos_) for (j0, o) in origin.elements)))
+        if id(obj) not in origin.snaps:
+            return res
+        (before, snap) = origin.snaps[id(obj)]
+        full = (_lift(z3.Function("IDX_NV", z3.IntSort(), z3.IntSort())(sym.z3int(after_header))),
+                _lift(z3.Function("IDX_SIZE", z3.IntSort(), z3.IntSort())(sym.z3int(after_header))),
+                TypeTok(_lift(z3.Function("IDX_TYPE", z3.IntSort(), z3.IntSort())(sym.z3int(after_header)))))
+        exp = INH.denote([before], [], False, [(before[0], header, full)])[0]
+        res.append(("carried/nothing-appended", len(lst.appends) == 0))
+        res.append(("carried/at-most-one-store", len(lst.stores) <= 1))
+        if len(lst.stores) == 1:
+            (kk, got) = lst.stores[0]
+            res.append(("carried/store-at-the-path's-position", kk == pos_))
+        elif len(lst.stores) == 0:
+            got = obj                         # slot left as it is: must already be what the entry means
+        else:
+            return res
+        (epath, ehas, eidx) = exp
+        res.append(("carried/object/path", got.path == epath))
+        res.append(("carried/object/has-data", got.has_data == ehas))
+        res.append(("carried/object/number-of-values", got.number_values == eidx[0]))
+        res.append(("carried/object/data-size", got.data_size == eidx[1]))
+        res.append(("carried/object/data-type", types_equal(got.data_type, eidx[2])))
+        reads = st.ghost.get("index_reads", [])
+        if interp_.truth(And(header != INH.NO_DATA, header != INH.SAME)):
+            res.append(("full-index/read-once-right-after-the-header-in-segment-byte-order",
+                        len(reads) == 1 and interp_.truth(And(reads[0][1] == after_header, reads[0][2] == header))
+                        and reads[0][3] == order))
+        else:
+            res.append(("no-index-in-entry/no-index-read", len(reads) == 0))
+        res.extend(_props_post(g, it, props, header, after_header, order))
+        (o, opath, ohas, onv, osize, otyp) = snap
+        res.append(("frame/carried-object-unchanged", And(o.has_data == ohas, o.number_values == onv,
+                                                          o.data_size == osize, o.data_type is otyp,
+                                                          o.path is opath)))
+        return res
+
+    def _props_post(g, it, props, header, after_header, order):
+        interp_ = interp
+        res = []
+        path = it["path"]
         pr = it["prop_reads"]
         res.append(("properties/read-once-in-segment-byte-order", len(pr) == 1 and pr[0][1] == order))
         if len(pr) == 1:
@@ -777,10 +927,6 @@ def _setup_loop(interp):
                             props is before and len(before.stores) == 1
                             and interp_.truth(interp_.compare(ast.Eq, before.stores[0][0], path))
                             and before.stores[0][1] is tok))
-        # earlier objects are not modified (the remembered object may be shared, never changed)
-        for (o, opath, ohas, onv, osize, otyp) in [prevmap.snap_of[id(kobj)]]:
-            res.append(("frame/remembered-object-unchanged", And(o.has_data == ohas, o.number_values == onv,
-                                                                 o.data_size == osize, o.data_type is otyp)))
         return res
 
     interp.loop_specs[("nptdms.tdms_segment:TdmsSegment.read_segment_objects", 0)] = LoopSpec(
@@ -794,11 +940,13 @@ def _setup_loop(interp):
 @harness("read_segment_objects_all_listed", ["tdms_segment.TdmsSegment.read_segment_objects",
                                              "tdms_segment.TdmsSegment._reuse_previous_object",
                                              "tdms_segment.TdmsSegment._new_segment_object"],
-         ["C02"], variants=[("first-segment", "first"), ("new-object-list", "newlist")], setup=_setup_loop,
+         ["C02"], variants=[("first-segment", "first"), ("new-object-list", "newlist"),
+                            ("carried-over-list", "carried")], setup=_setup_loop,
          level="proof",
-         note="segments that start a new object list: ANY number of listed objects (loop invariant); the reader's "
-              "per-path memory is a map of any size; carried-over lists stay with the shape-bounded harness "
-              "read_segment_objects and the unbounded step lemma update_existing_object")
+         note="ANY number of listed objects (loop invariant), ANY number of carried-over objects (the previous "
+              "list is abstract, the path dictionary built from it is a comprehension over a sequence of symbolic "
+              "length), the reader's per-path memory is a map of any size; precondition: a path is listed once "
+              "per segment (each entry is compared with the object carried at the start of the segment)")
 def _read_segment_objects_all_listed(vc):
     st = vc.st
     f = SFile("f")
@@ -812,8 +960,15 @@ def _read_segment_objects_all_listed(vc):
                  final_chunk_lengths_override=None, ordered_objects=None, object_index=None,
                  segment_incomplete=False, has_daqmx_objects_cached=None, chunk_size_cached=None,
                  data_objects_cached=None)
+    carried = None
     if vc.variant == "first":
         prev_seg = None
+    elif vc.variant == "carried":
+        vc.assume((toc & L.TOC_NEW_OBJ_LIST) == 0)
+        carried = vc.int("carried", lo=0)
+        prev_list = AbsList(vc, carried)
+        prev_seg = vc.new("tdms_segment.TdmsSegment", ordered_objects=prev_list, object_index=Tok("prev-index"),
+                          position=0, toc_mask=14, num_chunks=0)
     else:
         vc.assume((toc & L.TOC_NEW_OBJ_LIST) != 0)
         prev_list = SlotList()
@@ -823,8 +978,10 @@ def _read_segment_objects_all_listed(vc):
     count = uint(SBytes(f.content, pos0, 4), 0, 4, big)
     vc.assume(f.size - pos0 >= 4)
     prevmap = AbsPrevMap(vc)
-    st.ghost["loop"] = dict(file=f, big=big, prevmap=prevmap, list=None, propmap=None)
+    st.ghost["loop"] = dict(file=f, big=big, prevmap=prevmap, list=None, propmap=None, carried=carried,
+                            prev_list=prev_list if carried is not None else None)
     st.add_fact(ENTRY(0) == sym.z3int(pos0 + 4))                  # the first entry follows the object count
+    st.add_fact(APPENDED(0) == 0)
     vc.cover("a-segment-with-many-listed-objects-is-within-the-precondition", count >= 1000)
     out = vc.call_method(seg, "read_segment_objects", f, prevmap, None, prev_seg)
     it = st.ghost.get("iter")
@@ -837,13 +994,21 @@ def _read_segment_objects_all_listed(vc):
         vc.ensure("only-reuse-of-an-undefined-index-is-rejected", ok)
         return
     lst = seg.ordered_objects
-    vc.ensure("one-object-per-listed-entry", _list_len(lst) == count)
+    if carried is None:
+        vc.ensure("one-object-per-listed-entry", _list_len(lst) == count)
+    else:
+        vc.ensure("carried-objects-plus-at-most-one-per-listed-entry",
+                  And(_list_len(lst) >= carried, _list_len(lst) <= carried + count))
+        vc.ensure("the-list-is-a-copy-not-the-previous-segment's-list", lst is not prev_list)
     vc.ensure("cursor-after-the-last-entry", f.pos == _lift(ENTRY(sym.z3int(count))))
     vc.ensure("chunks-computed-once-on-the-final-list",
               st.ghost.get("calculated", 0) == 1 and st.ghost["calc_list_obj"] is lst)
     vc.ensure("index/not-built-when-not-required", seg.object_index is None)
     vc.ensure("returns-the-properties-map-or-none", out.value is None or isinstance(out.value, (dict, PropMap)))
-    if prev_seg is not None:
+    if prev_seg is not None and carried is None:
         vc.ensure("frame/previous-segment-list-untouched",
                   prev_seg.ordered_objects is prev_list and len(prev_list.stores) == 0
                   and len(prev_list.appends) == 0, kind="frame")
+    if carried is not None:
+        # stores or appends to the abstract previous list raise inside the function (AbsList refuses them)
+        vc.ensure("frame/previous-segment-keeps-its-list", prev_seg.ordered_objects is prev_list, kind="frame")
